@@ -29,5 +29,6 @@ Theorems == i > 0 =>
       [] c.thm = "shift" -> LET w == FinalW(Prefix(c)) IN
                             \A bi \in 1..Len(w.beams) : ThmShift(w, Last(c), w.beams[bi], c.kr, c.kc)
       [] c.thm = "energy" -> ThmEnergy(FinalW(Prefix(c)), Last(c))
+      [] c.thm = "fold" -> ThmFold(FinalW(Prefix(c)), Last(c))
       [] OTHER -> TRUE
 =============================================================================
